@@ -28,8 +28,11 @@ add("C19", "E5 endpoint-enum", "model_checking",
 add("C01", "E1 codec-enum + E3 sock-mc", "model_checking",
     "Bounded-exhaustive: every message whose frame lengths lie in the boundary grid G^N (N<=3; thorough adds MiB sizes, N=4 and all "
     "splits of 600 bytes) is encoded by the real codec and compared byte for byte with an independent RFC-23 encoder, decoded by the "
-    "independent decoder and by the library; all greeting field combinations and READY encodings for 12 socket types x 8 identity "
-    "sizes likewise; and the bytes each of the 9 real socket types writes on an attached in-memory connection (identity none/1/255 B) "
+    "independent decoder and by the library; every message of <= 3 frames whose bodies are words of length <= 3 over the header-like bytes {00,01,02,04,ff} "
+    "(3.8 M messages; contents must never influence framing); all greeting field combinations and READY encodings for 12 socket types x "
+    "every identity length 0..=255 likewise; the bytes each of the 9 real socket types writes on an attached in-memory connection (no "
+    "identity and every identity length 1..=255) and the bytes PUSH/DEALER/REQ/PUB/ROUTER/REP write for application messages with frame "
+    "lengths in {0,1,255,256,65536}^(1..2) over a transport that accepts everything or only 3 B / 4093 B per write "
     "are checked under every schedule within the deviation bound. The statement quantifies over all inputs; the 255/256 and 2^16 "
     "boundaries are where an off-by-one hides and they are crossed exhaustively.",
     "DESIGN.md 5.1",
@@ -51,7 +54,7 @@ add("C02", "E1 codec-enum + E3 sock-mc", "model_checking",
 add("C03", "E1 codec-enum + E3 sock-mc (child-process isolated)", "model_checking",
     "Bounded-exhaustive: every byte string over a 12-symbol alphabet (all flag combinations incl. reserved bit, small lengths, a name "
     "byte) up to length 5/6 after a valid greeting, fed whole and byte-at-a-time to the real framed reader; ~1700 structured hostile "
-    "inputs (inconsistent command lengths truncated at every byte, 64-bit lengths incl. sign bit, MORE chains up to 100000 frames), "
+    "inputs (inconsistent command lengths truncated at every byte, 64-bit lengths incl. sign bit alone and followed by part of the declared body (sizes around the 8 KiB read size up to 300 kB / 1 MB), MORE chains up to 100000 frames), "
     "each in its own child process on a 2 MiB stack with a counting allocator (no panic, no abnormal exit, heap growth <= 1 MiB + 64 x "
     "bytes received); and one representative per distinct codec outcome fed at each of 3 handshake stages to each of the 9 real socket "
     "types next to a healthy peer whose traffic must still get through, under all schedules within the deviation bound. A crash is an "
@@ -104,7 +107,11 @@ add("C07", "E3 sock-mc (sequential, complete product)", "model_checking",
     "wire envelope after send; delimiter stripped exactly on recv; 4 malformed reply shapes never handed over as Ok), raw "
     "REQ/DEALER/ROUTER-chain peer against a real REP (recv = frames after the first empty frame; reply = saved prefix + delimiter + "
     "reply), real REQ against real REP back to back; plus degenerate requests (delimiter-only, single frame, delimiter last) that must "
-    "never surface as a zero-frame message. Wire bytes are judged by the independent reference decoder.",
+    "never surface as a zero-frame message; two-step histories on one REP socket (the reply to the second request carries exactly the "
+    "second request's envelope whatever happened to the first); and every history of <= 5 (thorough 6) steps over {request/reply, peer "
+    "0/1 closes, peer 0/1's connection fails writes, peer 0 reconnects under its identity} on one REQ socket with two echo peers (every "
+    "accepted request is exactly [\"\", payload] on exactly one wire, a refused one is handed back unmodified, echoes come back as the "
+    "payload; short histories also under every schedule with 1-2 deviations). Wire bytes are judged by the independent reference decoder.",
     "DESIGN.md 5.7",
     "Envelope handling is sequential per socket, so one schedule per case. Requests with no empty frame are not judged (undefined by "
     "the statement).",
@@ -126,7 +133,9 @@ add("C09", "E3 sock-mc", "model_checking",
     "under every schedule within the deviation bound from 3 default policies; oracle: first frame of each recv result = identity "
     "returned by that connection's attach, rest = reference decode of that peer's bytes, per peer in order; sends to each identity "
     "appear minus the first frame on exactly that wire; unknown identities fail with no wire growing; a peer that closed both "
-    "directions is not reachable and causes no bytes elsewhere.",
+    "directions is not reachable and causes no bytes elsewhere. Reconnect family (a new connection announces an identity whose old "
+    "connection has not been noticed gone): sends reach the new connection. Abandoned-send family (a send to A dropped while A's "
+    "connection accepts nothing, as a timeout does; then it recovers): later sends to A and B succeed and arrive whole on the addressed wire.",
     "DESIGN.md 5.9",
     "Auto identities come from a per-execution counter through a seam in the vendored uuid crate (values are unique, reproducible). "
     "Single-frame sends are outside the statement.",
@@ -137,7 +146,11 @@ add("C10", "E3 sock-mc", "model_checking",
     "(accept all / few bytes per write / stall-then-resume) x sends racing with joins, under every schedule within the deviation "
     "bound from 3 default policies; the oracle is evaluated at the very step send() returns: exactly one peer's application bytes "
     "grew, by exactly the reference encoding (nothing left in the framed writer); any n consecutive successful sends with n stable "
-    "peers hit n distinct peers; no peer => ReturnToSender with identical frames and no wire grows.",
+    "peers hit n distinct peers; no peer => ReturnToSender with identical frames and no wire grows. Families on top: peers dying one "
+    "after the other while sends go on (exact wire bytes on survivors, message handed back intact once nobody is left); a peer "
+    "reconnecting under its announced identity (strict alternation afterwards); a send abandoned while it waits for a stalled "
+    "connection (after k polls or when nothing else can happen), then recovery (every later send succeeds, strict rotation, whole "
+    "messages only, each accepted message exactly once).",
     "DESIGN.md 5.10",
     "Rotation is judged over the phase after every attach has returned (a peer between its registration steps may or may not be in "
     "the rotation yet).",
@@ -149,7 +162,9 @@ add("C11", "E3 sock-mc (exhaustive histories)", "model_checking",
     "<= 2 for two subscribers, followed by publishing first frames \"\", a, ab, abc, b, c; compared with a reference multiset-of-prefixes "
     "model on the reference-decoded wires: delivered exactly once iff a subscription is a byte-prefix; XPUB.recv returns the "
     "subscribers' messages verbatim in per-peer order. Duplicates, overlapping prefixes, exact-length topics and unsubscribe-then-"
-    "publish are all inside the enumerated space.",
+    "publish are all inside the enumerated space. Families on top: a subscriber reconnecting under its identity while the old connection "
+    "ends (every interleaving within 3-4 deviations); each of 2..3 subscribers in turn starting to fail writes before three matching "
+    "publishes, under 3 hash keys (iteration orders): every other subscriber gets each message exactly once.",
     "DESIGN.md 5.11",
     "Matching is sequential: default schedule per history plus every single deviation on short histories.",
     "exhaustive operation-history enumeration on the real sockets against a reference model")
